@@ -15,7 +15,9 @@
 #include <soundswallower/fe.h>
 
 static int SHIFT, SIZE, NMAX, ENC_FLOAT, OPTS, REAL, ONLY_FULL;
-static config_t *CFG;
+static config_t *CFG, *CFG_REF;
+static int BIGENDIAN, IN_REF; /* --endian big: the explored front ends read byte-swapped input (input_endian=big on this little-endian
+                                 host); the one-call reference always reads the same signal in native order */
 static int16 *SIG;
 static int DIM;
 
@@ -62,6 +64,8 @@ make_config(void)
     config_set_bool(c, "smoothspec", ((OPTS >> 5) & 3) == 2);
     if ((OPTS >> 7) & 1)
         config_set_float(c, "alpha", 0.0);
+    if (BIGENDIAN && !IN_REF)
+        config_set_str(c, "input_endian", "big");
     return c;
 }
 
@@ -150,12 +154,20 @@ call_process(fe_t *fe, int start, int len, int lim, int enc_float, mfcc_t *out, 
         float32 *blk = malloc(len ? len * sizeof(float32) : 1), *p = blk;
         for (i = 0; i < len; i++)
             blk[i] = SIG[start + i] / 32768.0f;
+        if (BIGENDIAN && !IN_REF)
+            for (i = 0; i < len; i++) {
+                unsigned char *b = (unsigned char *)&blk[i], t0 = b[0], t1 = b[1];
+                b[0] = b[3], b[1] = b[2], b[2] = t1, b[3] = t0;
+            }
         k = fe_process_float32(fe, &p, &n, cep, nbuf);
         *ptr_ok = (p == blk + (len - (int)n));
         free(blk);
     } else {
         int16 *blk = malloc(len ? len * sizeof(int16) : 1), *p = blk;
         memcpy(blk, SIG + start, len * sizeof(int16));
+        if (BIGENDIAN && !IN_REF)
+            for (i = 0; i < len; i++)
+                blk[i] = (int16)(((uint16)blk[i] << 8) | ((uint16)blk[i] >> 8));
         k = fe_process_int16(fe, &p, &n, cep, nbuf);
         *ptr_ok = (p == blk + (len - (int)n));
         free(blk);
@@ -173,8 +185,9 @@ call_process(fe_t *fe, int start, int len, int lim, int enc_float, mfcc_t *out, 
 static void
 make_ref(ref_t *r, int N)
 {
-    fe_t *fe = fe_init(CFG);
+    fe_t *fe = fe_init(CFG_REF);
     int cap = N / SHIFT + 4, tot = 0, start = 0, guard = 0;
+    IN_REF = 1;
     r->fr = malloc(sizeof(mfcc_t) * DIM * cap);
     while (start < N && guard++ < 4) {
         int used, ok, k = call_process(fe, start, N - start, 1 << 20, 0, r->fr + (size_t)tot * DIM, cap - tot, &used, &ok);
@@ -191,6 +204,7 @@ make_ref(ref_t *r, int N)
     }
     r->n = tot;
     fe_free(fe);
+    IN_REF = 0;
 }
 
 static int
@@ -283,6 +297,9 @@ setup(void)
     uint32_t x = 12345;
     fe_t *fe;
     CFG = make_config();
+    IN_REF = 1;
+    CFG_REF = make_config();
+    IN_REF = 0;
     fe = fe_init(CFG);
     if (!fe) {
         fprintf(stderr, "fe_init failed for geometry\n");
@@ -420,6 +437,7 @@ main(int argc, char **argv)
     else if (sscanf(geom, "%dx%d", &SHIFT, &SIZE) != 2)
         return 2;
     ENC_FLOAT = strcmp(mc_arg(argc, argv, "--enc", "int16"), "float") == 0;
+    BIGENDIAN = strcmp(mc_arg(argc, argv, "--endian", "native"), "big") == 0;
     {
         const char *os = mc_arg(argc, argv, "--opts", "0");
         int all = strcmp(os, "all") == 0, o, first = 1;
@@ -441,6 +459,7 @@ main(int argc, char **argv)
                 free(REF);
                 free(SIG);
                 config_free(CFG);
+                config_free(CFG_REF);
                 if (!REAL)
                     sscanf(geom, "%dx%d", &SHIFT, &SIZE);
             }
